@@ -24,6 +24,15 @@ fn main() {
             println!("=== pass 1\n{a}=== pass 2\n{b}=== {}", if a == b { "idempotent" } else { "DIFFERENT" });
             return;
         }
+        "dbg-ir" => {
+            let text = std::fs::read_to_string(args.replay.as_ref().expect("--replay FILE")).expect("file");
+            let cfg = emmylua_formatter::LuaFormatConfig::default();
+            let src = emmylua_formatter::SourceText { text: &text, level: emmylua_parser::LuaLanguageLevel::Lua55 };
+            if let Some(ir) = emmylua_formatter::verif::format_to_ir(&src, &cfg) {
+                println!("{:#?}", ir);
+            }
+            return;
+        }
         "dbg-tokens" => {
             let text = std::fs::read_to_string(args.replay.as_ref().expect("--replay FILE")).expect("file");
             let tree = emmylua_parser::LuaParser::parse(&text, emmylua_parser::ParserConfig::with_level(emmylua_parser::LuaLanguageLevel::Lua55));
